@@ -721,6 +721,17 @@ CMR_ERROR CMRtuTest(CMR* cmr, CMR_CHRMAT* matrix, bool* pisTotallyUnimodular, CM
     if (error == CMR_ERROR_TIMEOUT)
       return error;
     CMR_CALL( error );
+
+    /* The partition criterion yields no certificate, so a requested violating submatrix is searched for. */
+    if (!*pisTotallyUnimodular && psubmatrix)
+    {
+      assert(!*psubmatrix);
+      remainingTime = timeLimit - (clock() - totalClock) * 1.0 / CLOCKS_PER_SEC;
+      if (params->naiveSubmatrix)
+        CMR_CALL( CMRtestHereditaryPropertyNaive(cmr, matrix, tuDecomposition, stats, psubmatrix, remainingTime) );
+      else
+        CMR_CALL( CMRtestHereditaryPropertyGreedy(cmr, matrix, tuDecomposition, stats, psubmatrix, remainingTime) );
+    }
   }
   else
   {
